@@ -286,6 +286,28 @@ func genC04(g *Rng, tier string, emit func(Op)) {
 		}
 		emit(Op{"op": "randstat", "class": "randomizer-length", "label": "ok", "maxbits": maxbits, "lmcommit": int(pk.Params.LmCommit), "keyid": kp.id})
 	}
+	// the non-revocation variant with the revocation attribute itself among the chosen attributes
+	// (known finding, hunting round): the property quantifies over every choice but the secret key.
+	// Kept last so that it draws nothing before the classes above.
+	{
+		kp := fixedKey("k1024a", true)
+		pk := kp.pk
+		for _, disclosed := range [][]int{{3}, {1, 3}, {3, 2, 1}} {
+			rs := revSetup(kp)
+			attrs := []*big.Int{attrValue(g, pk.Params.Lm), attrValue(g, pk.Params.Lm), rs.witness.E}
+			cred := issueCred(kp, randSecret(g), attrs)
+			cred.NonRevocationWitness = rs.witness
+			ctx, nonce := g.bits(256), g.bits(int(pk.Params.Lstatzk))
+			res := "accept"
+			if proof, err := cred.CreateDisclosureProof(disclosed, nil, true, ctx, nonce); err != nil {
+				res = fmt.Sprintf("refused: %v", err)
+			} else if !proof.Verify(pk, ctx, nonce, false) {
+				res = "unprovable: the prover returns a proof without error, the verifier rejects it"
+			}
+			emit(Op{"op": "recorded", "class": "subset-with-revocation-attribute-nonrev", "label": "accept", "nomodel": true,
+				"fkey": "C04/disclosed-revocation-attribute", "result": res, "key": kp.id, "disclosed": intsAny(disclosed)})
+		}
+	}
 }
 
 // disclosedValue: a hidden value that coincides with a value that IS disclosed (two attributes
